@@ -131,10 +131,18 @@ Proof.
   apply cres_bind; [apply IH; intros; apply H; right; assumption|]. intros; exact I.
 Qed.
 
+Lemma mapM_tl_cres : forall A B (P:str -> Prop) (f:A -> list A -> res B) l,
+  (forall a nx, cres P (f a nx)) -> cres P (mapM_tl f l).
+Proof.
+  intros A B P f l H. induction l as [|a r IH]; [exact I|].
+  cbn [mapM_tl]. apply cres_bind; [apply H|]. intros b _.
+  apply cres_bind; [exact IH|]. intros; exact I.
+Qed.
+
 Definition is_rword (r:fresult) : Prop := match r with RWord _ => True | RWords _ => False end.
 
 Lemma frag_result_forced : forall env rec diff chain stop w frs rs,
-  mapM (frag_result env rec diff chain stop w true) frs = Ok rs -> Forall is_rword rs.
+  mapM_tl (frag_result env rec diff chain stop w true) frs = Ok rs -> Forall is_rword rs.
 Proof.
   intros env rec diff chain stop w frs. induction frs as [|f r IH]; intros rs H; cbn in H.
   - injection H as E. subst. constructor.
@@ -154,7 +162,7 @@ Qed.
 (* get_new_words never fails on what the fragment loop hands it *)
 Lemma get_new_words_ok : forall env rec diff chain stop w force have frs rs,
   fragments_of_word w = Ok (force, have, frs) ->
-  mapM (frag_result env rec diff chain stop w force) frs = Ok rs ->
+  mapM_tl (frag_result env rec diff chain stop w force) frs = Ok rs ->
   ok_res (get_new_words w force have rs).
 Proof.
   intros env rec diff chain stop w force have frs rs Hf Hm.
@@ -174,21 +182,21 @@ Section ResolveAny.
 
   (* resolve_word given what the recursive resolution and the lookup can crash with *)
   Lemma resolve_word_cres : forall (P:str -> Prop) rec diff chain stop w,
-    (forall v, cres P (lookup_var env rec diff chain stop w v)) ->
+    (forall v dt, cres P (lookup_var env rec diff chain stop w v dt)) ->
     cres P (resolve_word env rec diff chain stop w).
   Proof.
     intros P rec diff chain stop w Hl. unfold resolve_word.
     destruct (quote_eqb (wq w) Q1); [exact I|].
     destruct (fragments_of_word w) as [[[force have] frs]| |c] eqn:Ef; cbn [bind]; [|exact I|destruct (fragments_no_crash _ _ Ef)].
     apply cres_bind.
-    - apply mapM_cres. intros [v|v] _; cbn [frag_result]; [exact I|].
+    - apply mapM_tl_cres. intros [v|v] nx; cbn [frag_result]; [exact I|].
       apply cres_bind; [apply Hl|]. intros; destruct (negb force); exact I.
     - intros rs Hrs. pose proof (get_new_words_ok _ _ _ _ _ _ _ _ _ _ Ef Hrs) as G.
       destruct (get_new_words w force have rs); cbn in *; auto. destruct G.
   Qed.
 
   Lemma resolve_words_cres : forall (P:str -> Prop) rec diff chain stop ws,
-    (forall w v, cres P (lookup_var env rec diff chain stop w v)) ->
+    (forall w v dt, cres P (lookup_var env rec diff chain stop w v dt)) ->
     cres P (resolve_words env rec diff chain stop ws).
   Proof.
     intros P rec diff chain stop ws Hl. induction ws as [|w r IH]; [exact I|].
@@ -200,7 +208,7 @@ Section ResolveAny.
   Lemma resolve_def_kinds : forall f diff chain d, cres vars_crash (resolve_def env f diff chain d).
   Proof.
     induction f as [|f IH]; intros diff chain d; [cbn; right; reflexivity|].
-    cbn [resolve_def]. apply resolve_words_cres. intros w v. unfold lookup_var.
+    cbn [resolve_def]. apply resolve_words_cres. intros w v dt. unfold lookup_var.
     apply cres_bind.
     - destruct chain as [|c0 cr]; [exact I|].
       pose proof (lexical_get_post (S (length v)) (oid d) (c0 :: cr) v true) as L.
@@ -208,7 +216,7 @@ Section ResolveAny.
     - intros src _. apply cres_bind.
       + destruct src as [[o ch]|]; [|exact I]. destruct (negb (is_def o)); [exact I|].
         apply cres_bind; [apply IH|]. intros; exact I.
-      + intros [ws|] _; [exact I|]. destruct (if diff then Some ("$" :: v) else env v); exact I.
+      + intros [ws|] _; [exact I|]. destruct (if diff then Some dt else env v); exact I.
   Qed.
 End ResolveAny.
 
@@ -266,7 +274,7 @@ Lemma resolve_def_ok : forall env f diff chain d,
   wf_chain chain -> oid d <> 0 -> oid d < f -> ok_res (resolve_def env f diff chain d).
 Proof.
   intros env f. induction f as [|f IH]; intros diff chain d Hwf Hid Hlt; [lia|].
-  cbn [resolve_def]. apply cres_false_ok. apply resolve_words_cres. intros w v. unfold lookup_var.
+  cbn [resolve_def]. apply cres_false_ok. apply resolve_words_cres. intros w v dt. unfold lookup_var.
   apply cres_bind.
   - destruct chain as [|c0 cr]; [exact I|]. apply cres_false_ok. apply lexical_get_ok; [exact Hid|lia].
   - intros src Hsrc. apply cres_bind.
@@ -274,7 +282,7 @@ Proof.
       destruct chain as [|c0 cr]; [discriminate|].
       destruct (lexical_get_found_def _ _ _ _ _ _ _ Hwf Hsrc) as [Hw Ho]. destruct (Ho Ed) as [Hn Hlt'].
       apply cres_bind; [|intros; exact I]. apply cres_false_ok. apply IH; [exact Hw|exact Hn|lia].
-    + intros [ws|] _; [exact I|]. destruct (if diff then Some ("$" :: v) else env v); exact I.
+    + intros [ws|] _; [exact I|]. destruct (if diff then Some dt else env v); exact I.
 Qed.
 
 (* ------------------------------------------------------------------ the fetch plumbing, once for both theorems *)
